@@ -14,6 +14,7 @@ var (
 	flagOut      = flag.String("out", "", "result json path")
 	flagReplay   = flag.String("replay", "", "replay file (json with header, ops)")
 	flagDriver   = flag.String("driver", "", "path of the Lean driver")
+	flagJudge    = flag.String("judge", "", "divergence file (json with header, ops, impl_out): compare the recorded implementation output with the given driver, both modes")
 )
 
 var registry = map[string]func() Engine{}
@@ -32,6 +33,12 @@ func TestEngine(t *testing.T) {
 	mk, ok := registry[*flagEngine]
 	if !ok {
 		t.Fatalf("unknown engine %q", *flagEngine)
+	}
+
+	if *flagJudge != "" {
+		judge(t, *flagEngine, *flagJudge, *flagOut)
+
+		return
 	}
 
 	var replay *Case
@@ -54,4 +61,46 @@ func TestEngine(t *testing.T) {
 	}
 
 	RunEngine(t, mk(), *flagSeed, *flagThorough, *flagOut, replay)
+}
+
+// judge compares the implementation output recorded in a divergence with what the driver at -driver says about the
+// same case (model mode and spec mode). bin/check uses it with a driver built from the BASELINE facts (the facts of the
+// unchanged tree, for which the model is proved to be the specification): the recorded behaviour is a concrete
+// failing input only if it also differs from that driver.
+func judge(t *testing.T, engine, file, out string) {
+	b, err := os.ReadFile(file)
+	if err != nil {
+		t.Fatal(err)
+	}
+
+	var d Divergence
+	if err := json.Unmarshal(b, &d); err != nil {
+		t.Fatal(err)
+	}
+
+	res := map[string]string{}
+
+	for _, spec := range []bool{false, true} {
+		mode := map[bool]string{false: "model", true: "spec"}[spec]
+
+		outs, err := runDriver(engine, spec, []Case{{Header: d.Header, Ops: d.Ops}})
+		if err != nil || len(outs) != 1 || len(outs[0]) != len(d.Impl) {
+			res[mode] = "error"
+
+			continue
+		}
+
+		res[mode] = "agree"
+
+		for i := range d.Impl {
+			if !lineEq(d.Impl[i], outs[0][i]) {
+				res[mode] = "differ"
+
+				break
+			}
+		}
+	}
+
+	jb, _ := json.Marshal(res)
+	_ = os.WriteFile(out, jb, 0o644)
 }
